@@ -68,6 +68,12 @@ func vkey(v ssa.Value, depth int) string {
 		return "F:" + x.Name()
 	case *ssa.Alloc:
 		if sv := singleStore(x); sv != nil {
+			switch sv.(type) {
+			case *ssa.MakeMap, *ssa.MakeSlice, *ssa.MakeChan:
+				if x.Comment != "" {
+					return "alloc:" + x.Comment
+				}
+			}
 			return vkey(sv, depth+1)
 		}
 		return "alloc:" + x.Comment + "@" + x.Name()
@@ -114,6 +120,16 @@ func vkey(v ssa.Value, depth int) string {
 		return "(" + vkey(x.X, depth+1) + x.Op.String() + vkey(x.Y, depth+1) + ")"
 	case *ssa.Slice:
 		return vkey(x.X, depth+1)
+	case *ssa.Next:
+		return "next(" + vkey(x.Iter, depth+1) + ")"
+	case *ssa.Range:
+		return "range(" + vkey(x.X, depth+1) + ")"
+	case *ssa.Lookup:
+		return vkey(x.X, depth+1) + "[" + vkey(x.Index, depth+1) + "]"
+	case *ssa.Index:
+		return vkey(x.X, depth+1) + "[" + vkey(x.Index, depth+1) + "]"
+	case *ssa.IndexAddr:
+		return "&" + vkey(x.X, depth+1) + "[" + vkey(x.Index, depth+1) + "]"
 	case *ssa.Phi:
 		return "phi:" + x.Name()
 	}
